@@ -34,8 +34,10 @@ class HarnessError(Exception):
 
 BRANCH_TIMEOUT_MS = 2000
 PROVE_TIMEOUT_MS = 20000
+PRIMARY_TIMEOUT_MS = 150
 import os as _os
 SLOW_LOG_S = float(_os.environ.get('SYMX_SLOW', '1e9'))
+_PROGRESS = int(_os.environ.get('SYMX_PROGRESS', '0'))
 
 
 class SymBool:
@@ -220,9 +222,14 @@ class Ctx:
         self._fresh = 0
         self._model = None
         self.unknown_here = False
+        self._pending = []
+        self._fallbacks = 0
+        from . import lin as _lin
+        _lin.reset_atoms()
         if self.mode == "sym":
             self.solver = z3.Solver()
-            self.solver.set("timeout", self.branch_timeout)
+            self.solver.set("smt.arith.solver", 2)
+            self._last_solver = self.solver
 
     def fresh(self, base, sort="int"):
         self._fresh += 1
@@ -234,19 +241,40 @@ class Ctx:
         return uuid.UUID(int=(0xb45a << 112) | self._uuid_n)
 
     def _check(self, *extra, timeout=None):
-        if timeout is not None:
-            self.solver.set("timeout", timeout)
+        """check-sat under the path condition (+ extra).  Primary solver: z3 with the simplex arithmetic core
+        (smt.arith.solver=2, 2-3x faster on these queries); on `unknown` the query is repeated once with z3's default
+        arithmetic solver and the full timeout."""
         t = time.perf_counter()
-        r = self.solver.check(*extra)
+        r = "unknown"
+        if self._fallbacks < 2:
+            self.solver.set("timeout", min(timeout or self.branch_timeout, PRIMARY_TIMEOUT_MS))
+            r = str(self.solver.check(*extra))
+            self._last_solver = self.solver
+        if r == "unknown":
+            # the simplex core occasionally stalls on ite/div heavy queries that the default core answers at once;
+            # after two stalls on a path the default core is used directly for the rest of that path
+            s2 = z3.Solver()
+            s2.set("timeout", timeout or self.branch_timeout)
+            s2.add(self.solver.assertions())
+            r = str(s2.check(*extra))
+            self._last_solver = s2
+            self._fallbacks += 1
+            self.stats["fallback_queries"] = self.stats.get("fallback_queries", 0) + 1
         el = time.perf_counter() - t
         self.stats["solver_s"] += el
+        self.stats["queries"] += 1
         if el > SLOW_LOG_S:
             import sys
             print("SLOW query %.1fs -> %s (decisions=%d) %s" % (el, r, len(self.decisions), self._what), file=sys.stderr)
-        self.stats["queries"] += 1
-        if timeout is not None:
-            self.solver.set("timeout", self.branch_timeout)
-        return str(r)
+            if _os.environ.get("SYMX_DUMP") and not _os.path.exists(_os.environ["SYMX_DUMP"]):
+                s2 = z3.Solver()
+                s2.add(self.solver.assertions())
+                s2.add(*extra)
+                open(_os.environ["SYMX_DUMP"], "w").write(s2.sexpr())
+        return r
+
+    def model(self):
+        return self._last_solver.model()
 
     def _holds_in_model(self, cond):
         if self._model is None:
@@ -262,6 +290,8 @@ class Ctx:
         return None
 
     def add(self, cond):
+        if self._pending:
+            self.flush()
         self.solver.add(cond)
         if self._model is not None and self._holds_in_model(cond) is not True:
             self._model = None
@@ -299,7 +329,7 @@ class Ctx:
             else:
                 rt = self._check(cond)
                 if rt == "sat":
-                    self._model = self.solver.model()
+                    self._model = self.model()
                 if rt == "unsat":
                     can_t, can_f = False, True
                 else:
@@ -346,7 +376,7 @@ class Ctx:
         if r == "unsat":
             raise Abort()
         if r == "sat":
-            self._model = self.solver.model()
+            self._model = self.model()
 
     # ------------------------------------------------------------------ inputs
     def _reg(self, name, kind, meta, term):
@@ -367,7 +397,8 @@ class Ctx:
             self.add(n >= lo)
         if hi is not None:
             self.add(n <= hi)
-        return SymDec(n, -prec)
+        from .lin import Lin
+        return SymDec(Lin.atom(n), -prec)
 
     def int(self, name, lo=None, hi=None):
         from .num import SymInt
@@ -434,11 +465,15 @@ class Ctx:
         return {n: jsonable(_model_value(model, s.term)) for n, s in self.vars.items()}
 
     def prove(self, cond, label, info=None):
-        """Obligation: `cond` must hold for every input on this path."""
+        """Obligation: `cond` must hold for every input on this path.
+
+        Obligations issued while a decision prefix is being replayed were already decided on the path that created
+        the prefix (same path condition, deterministic re-execution) and are skipped.  Consecutive obligations with no
+        intervening change of the path condition are discharged by one query (flush())."""
         cond = And(cond) if isinstance(cond, (list, tuple)) else cond
-        self.stats["obligations"] += 1
-        self.label_counts[label] += 1
         if self.mode != "sym":
+            self.stats["obligations"] += 1
+            self.label_counts[label] += 1
             if _is_sym(cond):
                 raise HarnessError("symbolic obligation in concrete mode: " + label)
             if not cond:
@@ -446,29 +481,53 @@ class Ctx:
             else:
                 self.stats["discharged"] += 1
             return
-        if not _is_sym(cond):
-            if cond:
-                self.stats["discharged"] += 1
-                self.discharged_labels[label] += 1
-                return
-            r = self._check(timeout=self.prove_timeout)
-            neg = None
-        else:
-            neg = z3.Not(_b(cond))
-            self._what = "prove " + label
-            r = self._check(neg, timeout=self.prove_timeout)
-            self._what = ""
-        if r == "unsat":
+        if len(self.decisions) < len(self.prefix):
+            return
+        self.stats["obligations"] += 1
+        self.label_counts[label] += 1
+        if not _is_sym(cond) and cond:
             self.stats["discharged"] += 1
             self.discharged_labels[label] += 1
-        elif r == "sat":
-            m = self.solver.model()
-            self.stats["candidates"] += 1
-            self.candidates.append(dict(label=label, assign=self.current_assignment(m), info=_short(info),
-                                        decisions=len(self.decisions)))
-        else:
-            self.stats["unknown_prove"] += 1
-            self.undecided.append(dict(label=label, decisions=len(self.decisions)))
+            return
+        self._pending.append((z3.BoolVal(False) if not _is_sym(cond) else _b(cond), label, info))
+
+    def flush(self):
+        """Discharge the buffered obligations under the current path condition."""
+        pend, self._pending = self._pending, []
+        while pend:
+            self._what = "prove %d obligation(s): %s" % (len(pend), pend[0][1])
+            r = self._check(z3.Or(*[z3.Not(c) for c, _, _ in pend]) if len(pend) > 1 else z3.Not(pend[0][0]),
+                            timeout=self.prove_timeout)
+            self._what = ""
+            if r == "unsat":
+                for _, label, _ in pend:
+                    self.stats["discharged"] += 1
+                    self.discharged_labels[label] += 1
+                return
+            if r == "sat":
+                m = self.model()
+                rest = []
+                hit = False
+                for c, label, info in pend:
+                    if z3.is_false(m.eval(c, model_completion=True)):
+                        hit = True
+                        self.stats["candidates"] += 1
+                        self.candidates.append(dict(label=label, assign=self.current_assignment(m),
+                                                    info=_short(info), decisions=len(self.decisions)))
+                    else:
+                        rest.append((c, label, info))
+                if not hit:
+                    raise HarnessError("model of a failed batch violates no member")
+                pend = rest
+                continue
+            # unknown: fall back to one query per obligation
+            if len(pend) == 1:
+                self.stats["unknown_prove"] += 1
+                self.undecided.append(dict(label=pend[0][1], decisions=len(self.decisions)))
+                return
+            one, pend = pend[:1], pend[1:]
+            self._pending = one
+            self.flush()
 
     def cover(self, label):
         self.covers[label] += 1
@@ -488,7 +547,7 @@ class Ctx:
         self.note("concretised: " + why)
         if self._check() != "sat":
             raise Abort()
-        m = self.solver.model()
+        m = self.model()
         v = m.eval(term, model_completion=True)
         self.add(term == v)
         return _model_value(m, term)
@@ -511,11 +570,12 @@ class Ctx:
         if self.mode != "sym":
             self.stats["reached_end"] += 1
             return None
+        self.flush()
         if self._model is None:
             r = self._check()
             if r != "sat":
                 return None
-            self._model = self.solver.model()
+            self._model = self.model()
         self.stats["reached_end"] += 1
         return self._model
 
@@ -579,6 +639,7 @@ def explore(fn, kwargs=None, prefixes=None, max_paths=100000, deadline=None, fro
     unreproduced = []
     crashes = []
     validated = 0
+    spurious = 0
     mismatches = []
     t0 = time.perf_counter()
     incomplete = False
@@ -592,6 +653,11 @@ def explore(fn, kwargs=None, prefixes=None, max_paths=100000, deadline=None, fro
         Ctx.cur = ctx
         ctx.new_path(prefix)
         ctx.stats["paths"] += 1
+        if _PROGRESS and ctx.stats["paths"] % _PROGRESS == 0:
+            import sys
+            print("progress: %d paths, worklist %d, %.0fs, queries %d solver %.0fs" % (
+                ctx.stats["paths"], len(ctx.worklist), time.perf_counter() - t0, ctx.stats["queries"],
+                ctx.stats["solver_s"]), file=sys.stderr)
         ncand = len(ctx.candidates)
         model = None
         try:
@@ -599,10 +665,12 @@ def explore(fn, kwargs=None, prefixes=None, max_paths=100000, deadline=None, fro
                 fn(ctx, **kwargs)
                 model = ctx.end_of_path()
         except Abort:
+            ctx._pending = []
             ctx.stats["aborted"] += 1
         except BudgetExceeded:
             incomplete = True
         except Exception as e:
+            ctx._pending = []
             # the real code (or the scenario) raised something unexpected on this path: replay decides what it is
             ctx.stats["errors"] += 1
             import traceback
@@ -610,7 +678,7 @@ def explore(fn, kwargs=None, prefixes=None, max_paths=100000, deadline=None, fro
             r = ctx._check()
             lab = "no unexpected exception out of the code under test (%s)" % type(e).__name__
             if r == "sat" and lab not in confirmed:
-                a = ctx.current_assignment(ctx.solver.model())
+                a = ctx.current_assignment(ctx.model())
                 ctx.unpatch()
                 rc = run_concrete(fn, {k: unjson(v) for k, v in a.items()}, kwargs)
                 validated += 1
@@ -637,6 +705,8 @@ def explore(fn, kwargs=None, prefixes=None, max_paths=100000, deadline=None, fro
             elif rc.error is not None:
                 cand = dict(cand, count=1, concrete_info="concrete run raised %r" % (rc.error,))
                 confirmed[lab] = cand
+            elif ctx.unknown_here:
+                spurious += 1       # the path passed through a branch z3 could not decide: it may be infeasible
             else:
                 unreproduced.append(cand)
         # samples and concolic validation of passing paths
@@ -669,7 +739,7 @@ def explore(fn, kwargs=None, prefixes=None, max_paths=100000, deadline=None, fro
                 undecided=ctx.undecided[:5], n_undecided=len(ctx.undecided), covers=dict(ctx.covers),
                 samples=ctx.samples, notes=ctx.notes, incomplete=incomplete,
                 pending=[list(p) for p in ctx.worklist], validated=validated, mismatches=mismatches[:5],
-                n_mismatches=len(mismatches), labels=dict(ctx.label_counts),
+                n_mismatches=len(mismatches), spurious=spurious, labels=dict(ctx.label_counts),
                 discharged_labels=dict(ctx.discharged_labels))
 
 
